@@ -15,6 +15,7 @@ import (
 	"strings"
 	"sync"
 	"testing"
+	"testing/synctest"
 )
 
 var vfT *testing.T // for golden runs started from generators
@@ -22,7 +23,7 @@ var vfT *testing.T // for golden runs started from generators
 func init() {
 	vfRegister(&vfProp{
 		id:        "C04",
-		classes:   []string{"single", "multi", "single", "multi", "wrerr", "golden"},
+		classes:   []string{"single", "multi", "single", "multi", "wrerr", "golden", "single", "multi", "single", "multi", "wrerr", "quickclose"},
 		gen:       c04Gen,
 		exec:      c04Exec,
 		enumerate: c04Enumerate,
@@ -55,6 +56,9 @@ func c04Base(class string, seed uint64) *vfScenario {
 		// site is keyed by the request id, and ids are drawn by whichever goroutine gets there first: with the
 		// helper goroutines of multi-chunk transfers running side by side after a fault that order is not ours.
 		sites |= 128
+	}
+	if !multi && rng.IntN(4) == 0 {
+		sc.Cfg["shortreads"] = int64(1 + rng.IntN(3)) // the peer answers READs with fewer bytes than asked for
 	}
 	if !multi && rng.IntN(3) == 0 {
 		// a writer whose Close does not make later Writes fail (a glued struct{io.Writer; io.Closer}, a pipe to a
@@ -136,6 +140,10 @@ func c04Golden(sc *vfScenario) (int, int) {
 }
 
 func c04Gen(class string, seed uint64, tier string) *vfScenario {
+	if class == "quickclose" {
+		// a session that is closed the moment it has been established
+		return &vfScenario{Cfg: map[string]int64{"quickclose": 1, "sites": int64(vfRng(seed, 3).IntN(4))}}
+	}
 	sc := c04Base(class, seed)
 	if class == "golden" {
 		return sc
@@ -187,12 +195,64 @@ func c04Enumerate(tier string, base uint64, emit func(*vfScenario)) {
 	}
 }
 
+// c04ShortReads: set per run (runs are sequential in a worker process): with a peer that answers READs short even a
+// one-chunk read is a multi-request call.
+var c04ShortReads bool
+
 type c04ReqInfo struct {
 	task, op int
 	replyEnd int // offset in s2c just after the reply, -1 unanswered
+	off      int64
+	dataLen  int // bytes of a DATA reply
+}
+
+// c04QuickClose: NewClientPipe and Close back to back in one goroutine. When Close has returned, the receiver goroutine
+// must be gone (it is what Close waits for), not merely about to start.
+func c04QuickClose(r *vfRun) {
+	sc, sim := r.sc, r.sim
+	srv := vfNewScriptServer(sim)
+	vfClientSites(sim, sc.cfg("sites", 3))
+	var cerr, closeErr error
+	returned := false
+	tk := vfSpawnTask(sim, 0, 1, func(int) {
+		var c *Client
+		c, cerr = vfNewSimClient(srv.c2s, srv.s2c)
+		if cerr == nil {
+			closeErr = c.Close()
+			returned = true
+		}
+	})
+	sim.run(tk.finished)
+	if sim.failed() {
+		return
+	}
+	if !tk.finished() || cerr != nil {
+		r.fail("C04/close-or-wait-hangs", "quickclose", "NewClientPipe followed at once by Close did not return (handshake error %v); blocked: %v", cerr, vfBubbleGoroutines())
+		return
+	}
+	_ = closeErr
+	synctest.Wait()
+	sim.mu.Lock()
+	alive := srv.s2c.waiter != nil
+	sim.mu.Unlock()
+	if returned && alive {
+		r.fail("C04/goroutine-leak", "recv-alive-when-Close-returned", "Close, called right after NewClientPipe, returned while the receiver goroutine was (still, or only now) reading the link")
+		return
+	}
+	sim.run(nil)
+	if left := vfBubbleGoroutines(); len(left) > 0 {
+		r.fail("C04/goroutine-leak", c04LeakSig(left), "after Close returned %d package goroutines are still alive: %v", len(left), left)
+		return
+	}
+	sim.count("probe.closed_right_after_connect")
+	r.res.NonTrivial = true
 }
 
 func c04Exec(r *vfRun) {
+	if r.sc.cfg("quickclose", 0) != 0 {
+		c04QuickClose(r)
+		return
+	}
 	sc, sim := r.sc, r.sim
 	srv := vfNewScriptServer(sim)
 	tag := sc.Seed
@@ -297,8 +357,14 @@ func c04Exec(r *vfRun) {
 	}
 	srv.onArrive = func(rq *ssReq) { attribute(rq) }
 	srv.onAnswer = func(rq *ssReq, p *wResp) {
-		attribute(rq).replyEnd = len(srv.s2c.buf)
+		ri := attribute(rq)
+		ri.replyEnd = len(srv.s2c.buf)
+		if p != nil && p.Type == wtData {
+			ri.off, ri.dataLen = int64(rq.q.Offset), len(p.Data)
+		}
 	}
+	srv.shortRead = int(sc.cfg("shortreads", 0))
+	c04ShortReads = srv.shortRead > 0
 	results := map[int][]*vfOpResult{}
 	var tasks []*vfTask
 	for _, t := range tids {
@@ -353,6 +419,13 @@ func c04Exec(r *vfRun) {
 		return
 	}
 	_ = closeErr
+	// ... and at the quiescent point right after Close has returned the receiver is gone, whatever the peer does next
+	synctest.Wait()
+	sim.mu.Lock()
+	if srv.s2c.waiter != nil {
+		readerAlive = true
+	}
+	sim.mu.Unlock()
 	if readerAlive {
 		r.fail("C04/goroutine-leak", "recv-alive-when-Close-returned", "Close returned while the receiver goroutine was still blocked reading the link")
 		return
@@ -409,6 +482,29 @@ func c04Exec(r *vfRun) {
 			}
 			if aff {
 				nAffected++
+			}
+			if !wrFault && (res.Op.K == "readat" || res.Op.K == "read") && res.Op.N <= P && res.Op.H < 200 && res.Err != nil && res.Err != io.EOF {
+				// what was received completely before the failure is still returned: the bytes of this call's DATA
+				// replies that got through, as far as they continue from the call's first offset
+				start := res.Op.Off
+				if res.Op.K == "read" {
+					start = ts.pos
+				}
+				got := int64(0)
+				for more := true; more; {
+					more = false
+					for _, ri := range reqs {
+						if ri.task == t && ri.op == i && ri.dataLen > 0 && ri.off == start+got && ri.replyEnd >= 0 && (cutAt < 0 || ri.replyEnd <= cutAt) {
+							got += int64(ri.dataLen)
+							ri.dataLen = 0
+							more = true
+						}
+					}
+				}
+				if res.N < got {
+					r.fail("C04/received-data-dropped", res.Op.K, "task %d op %d %+v failed with %v and reports %d bytes, but DATA replies for its first %d bytes had been received completely before the failure", t, i, res.Op, res.Err, res.N, got)
+					return
+				}
 			}
 			if msg := c04Check(srv, res, contentA, ts, dirNames, aff, P); msg != "" {
 				cls := "C04/wrong-result-unaffected-call"
@@ -611,9 +707,9 @@ func c04SingleRequest(op vfOp, P int, lenA int, pos int64) bool {
 		return op.N <= P
 	case "readat":
 		// a read that runs into the end of the file is completed with a second request
-		return op.N <= P && op.H < 200 && int(op.Off)+op.N <= lenA
+		return !c04ShortReads && op.N <= P && op.H < 200 && int(op.Off)+op.N <= lenA
 	case "read":
-		return op.N <= P && op.H < 200 && int(pos)+op.N <= lenA
+		return !c04ShortReads && op.N <= P && op.H < 200 && int(pos)+op.N <= lenA
 	}
 	return false
 }
